@@ -479,13 +479,18 @@ class CallMixin(StmtMixin):
                     else:
                         new.append(unwrap(it))
                 st_c = st_c.heap_set(lref, "items", tuple(new))
-            for path, val in case.get("alias", {}).items():
+            for path, val in list(case.get("alias", {}).items()) + list(case.get("new", {}).items()):
                 parts = path.split(".")
                 cur = res if parts[0] == "result" else binds.get(parts[0])
                 for p_ in parts[1:-1]:
                     cur = st_c.obj(cur).get(p_)
                 if not isinstance(cur, Ref):
                     raise Unsupported(f"alias path {path} of {c.key}: owner is not an object here", node)
+                if isinstance(val, Sort):
+                    # "new": the field holds a fresh object of this sort (call sites only; bodies are checked by `ensures`)
+                    st_c, nv, inv = self.make(st_c, val, parts[-1])
+                    st_c = st_c.assume(*inv)
+                    val = nv
                 st_c = st_c.heap_set(cur, parts[-1], unwrap(val))
             yield st_c, case["label"]
 
